@@ -483,16 +483,31 @@ func (c *Ctx) c02WriterImpl() {
 	buf := w.Call.Args[0]
 	bcall, ok := buf.(*ssa.Call)
 	whole := ok && isBytesBufferMethod(bcall, "Bytes")
+	// the frame may be completed by a private step that patches the length and hands back the bytes
+	// (sealFrame() []byte): the back-patch is then looked for in that step, in front of its return
+	pfn := wfn                  // where the back-patch lives
+	var pAt ssa.Instruction = w // what it must dominate there
+	if ok && !whole {
+		if sf := core.StaticCallee(bcall); sf != nil && c.P.InPkg(sf, "buffer") && sf.Blocks != nil && c.onlyCaller(sf) == ssa.CallInstruction(bcall) {
+			if rs := returns(sf); len(rs) == 1 && len(rs[0].Results) == 1 {
+				if inner, isCall := rs[0].Results[0].(*ssa.Call); isCall && isBytesBufferMethod(inner, "Bytes") {
+					whole = true
+					pfn, pAt, buf = sf, rs[0], inner
+					R.Analysed(fname(sf))
+				}
+			}
+		}
+	}
 	R.Check(whole, "C02.R4", "End:writes-whole-frame", c.at(w), "End writes the whole frame (frame.Bytes()), not a sub-slice", "argument is frame.Bytes()", "the written value is not the result of frame.Bytes()")
 	// length back-patch
 	patched := false
 	why := "no PutUint32 dominating the write"
-	for _, ci := range core.Calls(wfn) {
+	for _, ci := range core.Calls(pfn) {
 		f := core.StaticCallee(ci)
 		if f == nil || f.Name() != "PutUint32" || f.Pkg == nil || f.Pkg.Pkg.Path() != "encoding/binary" {
 			continue
 		}
-		if !core.InstrDominates(ci, w) {
+		if !core.InstrDominates(ci, pAt) {
 			why = "PutUint32 does not dominate the connection write"
 			continue
 		}
